@@ -268,7 +268,7 @@ def _dumps_kvn(data, **kwargs):
             text.append(
                 "{date:{dfmt}} {orb[0]:{fmt}} {orb[1]:{fmt}} {orb[2]:{fmt}} {orb[3]:{fmt}} {orb[4]:{fmt}} {orb[5]:{fmt}}".format(
                     date=orb.date,
-                    orb=orb.base / units.km,
+                    orb=np.asarray(orb) / units.km,
                     fmt=" 10f",
                     dfmt=DATE_FMT_DEFAULT,
                 )
